@@ -135,7 +135,11 @@ func runMutant(repo string, pc *PropConfig, m Mutant) (bool, string) {
 		}
 	}
 	for _, er := range rs.engineErrs {
+		// an engine error (a contract that no longer fits the code) fails the check like any violation
 		names = append(names, "engine:"+er)
+		if strings.Contains("engine:"+er, m.Expect) {
+			return true, "engine error " + clip(er, 140)
+		}
 	}
 	if len(names) > 0 {
 		return false, "other obligations failed instead: " + clip(strings.Join(names, " | "), 400)
